@@ -182,6 +182,8 @@ func c01RunOne(work string, c *c01Case) {
 		name := filepath.Join(dir, fmt.Sprintf("seed%d", i))
 		if s.Kind == "self" {
 			name = target
+		} else if s.Kind == "gone" {
+			// the seed's data file cannot be opened (deleted after the index was made)
 		} else if err := os.WriteFile(name, vh.UnHex(s.FileHex), 0644); err != nil {
 			c.Result = "err:harness " + err.Error()
 			return
@@ -343,9 +345,13 @@ func c01RunBatch(a vh.Args, cases []c01Case) error {
 func c01Judge(r *vh.Result, c *c01Case) {
 	consistent := true // every seed's index matches its file
 	static := true     // no seed aliases the target
+	regenerable := true
 	for _, s := range c.Seeds {
-		if s.Kind == "stale" {
+		if s.Kind == "stale" || s.Kind == "gone" {
 			consistent = false
+		}
+		if s.Kind == "gone" {
+			regenerable = false // a seed whose data file is gone can be skipped, not regenerated
 		}
 		if s.Kind == "self" {
 			static = false
@@ -353,7 +359,7 @@ func c01Judge(r *vh.Result, c *c01Case) {
 		}
 	}
 	complete := len(c.Missing) == 0
-	mustSucceed := complete && (consistent || (c.Action != 0 && static))
+	mustSucceed := complete && (consistent || (c.Action == 1 && static) || (c.Action == 2 && static && regenerable))
 	key := fmt.Sprintf("%s|%d|%d|%v|%d|%s|%d", c.Prior, c.Action, c.N, c.Clone, len(c.Seeds), c.BlobHex[:min(20, len(c.BlobHex))], len(c.BlobHex))
 	r.Count(key, len(c.Seeds) > 0 || c.Prior != "absent")
 	r.Dist("prior:" + c.Prior)
@@ -466,7 +472,10 @@ func c01Gen(rng *vh.Rand) c01Case {
 	var older []byte
 	for k := 0; k < ns; k++ {
 		var s c01Seed
-		switch rng.Intn(8) {
+		switch rng.Intn(9) {
+		case 8:
+			d, ps := pieces()
+			s = c01Seed{Kind: "gone", Pieces: ps, IndexHex: vh.Hex(d)}
 		case 0:
 			s = c01Seed{Kind: "empty"}
 		case 1, 2:
